@@ -117,7 +117,7 @@ func c14Round(e *vfEnv, r *vfkit.R, rng *rand.Rand, round int) {
 		}
 	}
 	vfRec.setDelay(true, rng.Int63())
-	nops := r.Pick(60, 250)
+	nops := r.Pick(100, 250)
 	var wg sync.WaitGroup
 	var delMu sync.Mutex
 	deletedTopics := map[string]bool{}
@@ -387,7 +387,7 @@ func TestVfC14(t *testing.T) {
 	e := vfBoot(vfConfig{Push: true})
 	vfInstallRecorder(e)
 	rng := r.Rand(1)
-	rounds := r.Pick(3, 12)
+	rounds := r.Pick(4, 12)
 	for i := 0; i < rounds; i++ {
 		c14Round(e, r, rng, i)
 		r.Flush(false)
